@@ -36,6 +36,9 @@ fn paths() -> Vec<(&'static str, Vec<Step>)> {
         (".a[1].b", vec![Step::Field("a"), Step::Index(1), Step::Field("b")]),
         ("[0]", vec![Step::Index(0)]),
         ("[1].a", vec![Step::Index(1), Step::Field("a")]),
+        (".a[1][0]", vec![Step::Field("a"), Step::Index(1), Step::Index(0)]),
+        ("[0][1]", vec![Step::Index(0), Step::Index(1)]),
+        (".b.a", vec![Step::Field("b"), Step::Field("a")]),
     ]
 }
 
@@ -156,6 +159,9 @@ fn documents(thorough: bool) -> Vec<String> {
         v.push(format!("[0,{}]", x));
         v.push(format!("{{\"a\":{},\"b\":2}}", x));
         v.push(format!("{{\"a\":[0,{}]}}", x));
+        v.push(format!("{{\"a\":[1,[{},2]]}}", x));
+        v.push(format!("[[0,{}],1]", x));
+        v.push(format!("{{\"b\":{{\"a\":{}}}}}", x));
         if thorough {
             v.push(format!("{{\"a\":{{\"b\":{}}}}}", x));
             v.push(format!("{{\"a\":[{},{{\"b\":{}}}]}}", x, x));
